@@ -175,7 +175,7 @@ def depth_cyclic(sink):
 # ------------------------------------------------------------------------------------ (2) mutation matrix
 TRAVERSALS = ('flatten', 'with_path', 'iter', 'flatten_up_to', 'map_rest', 'all_leaves', 'broadcast_common', 'traverse_leaves', 'unflatten_leaves', 'from_collection')
 CONTAINERS = ('list', 'dict', 'ordereddict', 'defaultdict', 'deque', 'custom-list')
-POSITIONS = ('predicate', 'custom-flatten', 'key-lt', 'key-hash')
+POSITIONS = ('predicate', 'custom-flatten', 'key-lt', 'key-hash', 'child-dict-key-lt', 'child-dict-key-hash', 'child-metaclass-hook')
 MUTATIONS = ('del-before', 'del-after', 'clear', 'grow', 'replace')
 
 
@@ -241,6 +241,7 @@ def build_cell(container, position, mutation, element_factory):
     """Returns (tree, cont, fired flag list, predicate or None)."""
     fired = [0]
     n = 6
+    fac_leaf = lambda: element_factory(777)  # noqa: E731
     elems = [element_factory(i) for i in range(n)]
     trigger_index = 2
     keys = [MKey(i) for i in range(n)]
@@ -311,6 +312,45 @@ def build_cell(container, position, mutation, element_factory):
             cont.kids[trigger_index] = t
         else:
             cont[keys[trigger_index]] = t
+    elif position in ('child-dict-key-lt', 'child-dict-key-hash', 'child-metaclass-hook'):
+        # the callback comes from *inside a child* of the container (no predicate, no custom node
+        # involved): key comparison / hashing of a dict element, or the namedtuple detection of a
+        # tuple-subclass element reaching a metaclass attribute hook
+        if position == 'child-metaclass-hook':
+            class HookMeta(type):
+                def __getattr__(cls, name):
+                    if not fired[0]:
+                        mutate()
+                    raise AttributeError(name)
+
+            child = HookMeta('HookTuple', (tuple,), {})((fac_leaf(),))
+        else:
+            k1, k2, k3 = MKey(901), MKey(900), MKey(902)
+            if position == 'child-dict-key-lt':
+                k1.on_lt = mutate
+                k3.on_lt = mutate
+            else:
+                k2.on_hash = None
+            child = {k1: fac_leaf(), k2: fac_leaf(), k3: fac_leaf()}
+            if position == 'child-dict-key-hash':
+                k2.on_hash = mutate  # armed after the dict was built: fires at the engine's lookup
+        if container in ('list', 'deque'):
+            cont[trigger_index] = child
+        elif container == 'custom-list':
+            cont.kids[trigger_index] = child
+        else:
+            cont[keys[trigger_index]] = child
+    elif position.startswith('twin-child-'):
+        if position.endswith('metaclass-hook'):
+            child = U.TupleSub((fac_leaf(),))
+        else:
+            child = {MKey(901): fac_leaf(), MKey(900): fac_leaf(), MKey(902): fac_leaf()}
+        if container in ('list', 'deque'):
+            cont[trigger_index] = child
+        elif container == 'custom-list':
+            cont.kids[trigger_index] = child
+        else:
+            cont[keys[trigger_index]] = child
     elif position == 'key-lt':
         if container in ('dict', 'defaultdict'):
             keys[3].on_lt = mutate
@@ -337,7 +377,7 @@ def run_cell(sink, trav, container, position, mutation, wrap):  # noqa: C901
     tree = cont if wrap == 'root' else [U.Leaf('pre'), cont, U.Leaf('post')]
     kw = dict(namespace=NSM)
     # a pristine twin for operations that need a second tree / a treespec made beforehand
-    twin_built = build_cell(container, 'none', mutation, fac)
+    twin_built = build_cell(container, 'none' if not position.startswith('child-') else 'twin-' + position, mutation, fac)
     twin = twin_built[0] if wrap == 'root' else [U.Leaf('pre'), twin_built[0], U.Leaf('post')]
     twin_spec = optree.tree_structure(twin, **kw)
 
